@@ -41,6 +41,13 @@ const (
 	opLOG2         = 0xa2
 	opCREATE       = 0xf0
 	opCREATE2      = 0xf5
+	opBALANCE      = 0x31
+	opCALLVALUE    = 0x34
+	opEXTCODESIZE  = 0x3b
+	opPOP          = 0x50
+	opGAS          = 0x5a
+	opPUSH20       = 0x73
+	opCALL         = 0xf1
 	opCALLDATASIZE = 0x36
 	opCALLDATACOPY = 0x37
 	opRETURN       = 0xf3
@@ -162,6 +169,16 @@ func init2CodeFor(runtime []byte) []byte {
 }
 
 var child2Init = init2CodeFor(contractRuntime)
+
+// The FORWARDER (genesis allocation of the "+factory" chains): CALL(x, value = CALLVALUE) - a CALL with value, which charges
+// CallNewAccountGas when x does not exist - then slot1 = BALANCE(x), slot2 = EXTCODESIZE(x).
+func forwarderRuntime(x common.Address) []byte {
+	ax := "raw:" + common.Bytes2Hex(x.Bytes())
+	return asm("#0", "#0", "#0", "#0", opCALLVALUE, opPUSH20, ax, opGAS, opCALL, opPOP,
+		opPUSH20, ax, opBALANCE, "#1", opSSTORE,
+		opPUSH20, ax, opEXTCODESIZE, "#2", opSSTORE,
+		opSTOP)
+}
 var revertingInit = asm("#0x66", "#1", opSSTORE, "#0", "#0", opREVERT)
 var loopingInit = asm(":top", "#1", "#1", opSSTORE, "@top", opJUMP) // burns all gas
 
@@ -305,6 +322,14 @@ var alphabet = []tmpl{
 	{Name: "mk2B", From: "B", Nonce: plain, Want: "ok", ChainOnly: true, Make: func(w *world, n uint64) *types.Transaction {
 		// (re-)create the multi-purpose contract through the factory: CREATE2, always the same address
 		return sign(types.NewTransaction(n, factoryAddr, big.NewInt(0), 700000, two, child2Init), keyB)
+	}},
+	{Name: "payA", From: "A", Nonce: plain, Want: "ok", ChainOnly: true, Make: func(w *world, n uint64) *types.Transaction {
+		// plain value transfer TO the contract's address (re-funds the address when the contract is gone)
+		return sign(types.NewTransaction(n, w.X, big.NewInt(12345), 100000, one, nil), keyA)
+	}},
+	{Name: "fwdA", From: "A", Nonce: plain, Want: "ok", ChainOnly: true, Make: func(w *world, n uint64) *types.Transaction {
+		// pays the contract's address THROUGH the forwarder (CALL with value) which then reads its balance and code size
+		return sign(types.NewTransaction(n, forwarderAddr, big.NewInt(777), 300000, one, nil), keyA)
 	}},
 	{Name: "exitV3", From: "V3", Nonce: plain, Want: "ok", Make: func(w *world, n uint64) *types.Transaction {
 		// genesis validator 3 withdraws its whole self delegation: it leaves the validator set
